@@ -93,6 +93,23 @@ pub fn limit_box() -> BoxedStrategy<LimitSpec> {
         .boxed()
 }
 
+/// Non-wrapping windows (from < to) that need not be centred near zero: some reach beyond +-pi (e.g. 90..270 degrees).
+pub fn limit_box_shifted() -> BoxedStrategy<LimitSpec> {
+    (limit_box(), prop::array::uniform6(prop_oneof![2 => Just(0.0), 1 => -3.0..3.0f64]), prop::array::uniform6(0.3..1.0f64))
+        .prop_map(|(l, shift, shrink)| {
+            let mut from = [0.0; 6];
+            let mut to = [0.0; 6];
+            for k in 0..6 {
+                // a shifted window is also narrowed (at most about a turn wide) so that it stays a proper window
+                let (f, t) = if shift[k] == 0.0 { (l.from[k], l.to[k]) } else { (l.from[k] * shrink[k], l.to[k] * shrink[k]) };
+                from[k] = f + shift[k];
+                to[k] = t + shift[k];
+            }
+            LimitSpec { from, to, weight: 0.0 }
+        })
+        .boxed()
+}
+
 pub fn planning_scene(max_env: usize) -> BoxedStrategy<Scene> {
     scene_strategy(max_env)
         .prop_map(|mut scene| {
@@ -121,7 +138,7 @@ pub fn planning_scene(max_env: usize) -> BoxedStrategy<Scene> {
 }
 
 fn fine_for_close() -> BoxedStrategy<Case> {
-    (planning_scene(1), limit_box(), prop::array::uniform6(0.1..0.9f64), prop::array::uniform6(-1.0..1.0f64), 1.0..10.0f64, prop_oneof![Just(0u32), Just(1u32), Just(100u32)], any::<u64>())
+    (planning_scene(1), prop_oneof![2 => limit_box(), 1 => limit_box_shifted()], prop::array::uniform6(0.1..0.9f64), prop::array::uniform6(-1.0..1.0f64), 1.0..10.0f64, prop_oneof![Just(0u32), Just(1u32), Just(100u32)], any::<u64>())
         .prop_map(|(scene, limits, start_u, dir, step_deg, max_try, rng_seed)| Case { scene, limits, start_u, goal_u: dir, step_deg, max_try, rng_seed, cancel: 0, cancel_at: 1, close: Some(0.5) })
         .boxed()
 }
@@ -132,7 +149,7 @@ impl Property for C13 {
         "C13"
     }
     fn rule(&self) -> String {
-        "slim box-bodied robots with optional tool/base + 0..3 free-floating obstacles + non-wrapping limits; start/goal drawn inside the limit box and kept when the robot reports them free (rejections counted); step 1..10 degrees; max_try in {1,10,100,2000}; \
+        "slim box-bodied robots with optional tool/base + 0..3 free-floating obstacles + non-wrapping limits (one window set in three is shifted, so that windows reach beyond +-pi, e.g. 90..270 degrees); start/goal drawn inside the limit box (in one case in four with some joints exactly on a limit) and kept when the robot reports them free (rejections counted); step 1..10 degrees; max_try in {1,10,100,2000}; \
          library RNG seeded per case through verif_hooks; cancellation never / before the call / at the N-th collision query (made deterministic by a counting Kinematics wrapper owned by the harness). \
          A second 'coarse' regime uses narrow limit windows (some joints +-0.05..0.2 rad), steps of 12..40 degrees and obstacles attached next to the arm, so that random samples often land within one step of a tree vertex and a noticeable share of the window collides. A 'long relocation' regime (1 case in 25) puts start and goal at opposite corners of the limit box with a step of 0.2..0.6 degrees (300..3000 planner steps apart). Non-trivial: a returned path with >= 4 nodes (>= 3 in the coarse regime) in a scene with >= 1 obstacle, a path of more than 257 nodes, or a cancellation case."
             .into()
@@ -184,7 +201,7 @@ impl Property for C13 {
             });
         let fine = (
             planning_scene(3),
-            limit_box(),
+            prop_oneof![2 => limit_box(), 1 => limit_box_shifted()],
             prop::array::uniform6(0.05..0.95f64),
             prop::array::uniform6(0.05..0.95f64),
             1.0..10.0f64,
@@ -193,7 +210,21 @@ impl Property for C13 {
             prop_oneof![5 => Just(0u8), 1 => Just(1u8), 2 => Just(2u8)],
             prop_oneof![4 => any::<u16>().prop_map(|i| [1u32, 2, 3, 5, 10, 30, 100][crate::engine::pick_idx(i, 7)]), 1 => 1u32..400],
         )
-            .prop_map(|(scene, limits, start_u, goal_u, step_deg, max_try, rng_seed, cancel, cancel_at)| Case { scene, limits, start_u, goal_u, step_deg, max_try, rng_seed, cancel, cancel_at, close: None });
+            .prop_map(|(scene, limits, mut start_u, mut goal_u, step_deg, max_try, rng_seed, cancel, cancel_at)| {
+                // one case in four: some joints of start and goal sit exactly on a limit (limits are inclusive)
+                if rng_seed % 4 == 0 {
+                    for j in 0..6 {
+                        if (rng_seed >> (8 + 2 * j)) & 1 != 0 {
+                            let side = ((rng_seed >> (9 + 2 * j)) & 1) as f64;
+                            start_u[j] = side;
+                            if (rng_seed >> (24 + j)) & 1 != 0 {
+                                goal_u[j] = side;
+                            }
+                        }
+                    }
+                }
+                Case { scene, limits, start_u, goal_u, step_deg, max_try, rng_seed, cancel, cancel_at, close: None }
+            });
         // close pairs: goal within a fraction of one step of the start (or equal to it), with every cancellation mode
         let near = (fine_for_close(), prop_oneof![1 => Just(0.0), 3 => 0.05..0.95f64, 1 => 1.0..3.0f64], 0u8..3).prop_map(|(mut c, f, cancel)| {
             c.close = Some(f);
@@ -219,6 +250,12 @@ impl Property for C13 {
         scene.limits = Some(c.limits);
         let built = scene.build(&[0.0; 6]);
         let l = &c.limits;
+        if c.start_u.iter().chain(c.goal_u.iter()).any(|u| *u == 0.0 || *u == 1.0) && c.close.is_none() {
+            ctx.class("start / goal: a joint exactly on a limit");
+        }
+        if (0..6).any(|k| l.from[k] < -std::f64::consts::PI || l.to[k] > std::f64::consts::PI) {
+            ctx.class("limits: a window reaches beyond +-pi");
+        }
         // wrap the kinematics in the counting wrapper
         let stop = Arc::new(AtomicBool::new(false));
         let counting = Arc::new(Counting {
